@@ -6,7 +6,14 @@
 #if defined(RKCOMMON_TASKING_TBB)
 #define __TBB_NO_IMPLICIT_LINKAGE 1
 #define __TBBMALLOC_NO_IMPLICIT_LINKAGE 1
+#include <tbb/task_arena.h>
 #include <tbb/task_group.h>
+// TBB_INTERFACE_VERSION (oneTBB keeps it in a header of its own)
+#if defined(__has_include)
+#if __has_include(<tbb/version.h>)
+#include <tbb/version.h>
+#endif
+#endif
 #elif defined(RKCOMMON_TASKING_OMP)
 #include <thread>
 #elif defined(RKCOMMON_TASKING_INTERNAL)
@@ -49,7 +56,15 @@ namespace rkcommon {
       inline AsyncTaskImpl<TASK_T>::AsyncTaskImpl(TASK_T &&fcn)
 #if defined(RKCOMMON_TASKING_TBB)
       {
+#if defined(TBB_INTERFACE_VERSION) && TBB_INTERFACE_VERSION >= 12080
+        // Enqueue the task instead of spawning it: a spawned task is only
+        // certain to run once somebody waits for the group (with a single TBB
+        // thread nobody else ever executes it), an enqueued one runs by itself
+        tbb::task_arena ta = tbb::task_arena(tbb::task_arena::attach());
+        ta.enqueue(taskGroup.defer(std::forward<TASK_T>(fcn)));
+#else
         taskGroup.run(std::forward<TASK_T>(fcn));
+#endif
       }
 #elif defined(RKCOMMON_TASKING_OMP)
           : thread(std::forward<TASK_T>(fcn))
